@@ -426,7 +426,8 @@ func lookup(v reflect.Value, name string) (interface{}, error) {
 		return res.Interface(), nil
 	}
 
-	return nil, nil
+	// No such member: no value (not JSON null).
+	return nil, jtypes.ErrUndefined
 }
 
 func throw(msg string) (interface{}, error) {
